@@ -150,7 +150,29 @@ def _rounding(draw):
     return {"kind": "standalone", "work": work, "edges": edges, "order": order, "hist": hist}
 
 
-CFG_SIM = gen.Cfg(warm_modes=["morph", "graft", "append", "nolog"], warm=3, due=True, kinds=[0], facilities=False, max_workers=3, min_tasks=2, max_tasks=8, max_time=[40], p_auto=10)
+@st.composite
+def _long_chain(draw):
+    """A line of more than a thousand tasks (with a few shortcuts and side tasks): nothing in the PERT passes may
+    depend on the depth of the network."""
+    n = draw(st.sampled_from([1001, 1002, 1003, 1100, 1300]))
+    pool = draw(st.sampled_from([[1.0], [1.0, 2.0], [0.5, 1.0, 3.0]]))
+    work = [pool[i % len(pool)] for i in range(n)]
+    edges = [[i, i + 1] for i in range(n - 1)]
+    for _ in range(draw(st.integers(0, 3))):
+        a = draw(st.integers(0, n - 3))
+        edges.append([a, draw(st.integers(a + 2, n - 1))])
+    k = draw(st.integers(0, 2))  # side tasks hanging off the line
+    for j in range(k):
+        work.append(draw(st.sampled_from([1.0, 50.0])))
+        edges.append([draw(st.integers(0, n - 1)), n + j])
+    m = len(work)
+    fr = [0.0] * m
+    fr[0] = draw(st.sampled_from([0.0, 0.5, 1.0]))
+    return {"kind": "standalone", "work": work, "edges": sorted(set(tuple(e) for e in edges)), "order": list(range(m)) if draw(st.booleans()) else list(reversed(range(m))),
+            "hist": [[draw(st.integers(0, 2)), fr]], "long": True}
+
+
+CFG_SIM = gen.Cfg(warm_modes=["morph", "graft", "append", "nolog", "cutrerun"], warm=3, due=True, kinds=[0], facilities=False, max_workers=3, min_tasks=2, max_tasks=8, max_time=[40], p_auto=10)
 
 
 @st.composite
@@ -166,8 +188,9 @@ def _sim(draw, cfg):
 
 def strategy(tier):
     if tier == "quick":
-        return st.one_of(_standalone(10), _standalone(10), _sim(CFG_SIM), _rounding())
-    return st.one_of(_standalone(14), _standalone(14), _sim(CFG_SIM.copy(max_tasks=12, max_workers=5, facilities=True)), _rounding())
+        return st.one_of(_standalone(10), _standalone(10), _standalone(10), _sim(CFG_SIM), _sim(CFG_SIM), _rounding(), _rounding(), _long_chain())
+    return st.one_of(_standalone(14), _standalone(14), _standalone(14), _sim(CFG_SIM.copy(max_tasks=12, max_workers=5, facilities=True)),
+                     _sim(CFG_SIM.copy(max_tasks=12, max_workers=5, facilities=True)), _rounding(), _rounding(), _long_chain())
 
 
 def budget(tier):
@@ -216,6 +239,7 @@ def check(case):
             if res.violations:
                 break
         res.cls("multi_head", n - len(set(b for _, b in edges)) > 1)
+        res.cls("line_of_more_than_1000_tasks", bool(case.get("long")))
         res.nontrivial = changed and n > 1
     else:
         spec = case["spec"]
